@@ -10,15 +10,7 @@ use std::time::Duration;
 pub struct C11S;
 pub static C11: C11S = C11S;
 
-fn list_fds() -> Vec<i32> {
-    // ground truth: the kernel's view of our descriptor table (inherited copies made by the
-    // exec-child fault live at >= 9000 and belong to "another process")
-    let mut v: Vec<i32> = std::fs::read_dir("/proc/self/fd").map(|d| d.filter_map(|e| e.ok()).filter_map(|e| e.file_name().to_string_lossy().parse().ok()).collect()).unwrap_or_default();
-    // (the directory stream's own descriptor is gone again by now)
-    v.retain(|f| *f < 9000 && unsafe { sim::raw6(libc::SYS_fcntl, *f as i64, libc::F_GETFD as i64, 0, 0, 0, 0) } >= 0);
-    v.sort();
-    v
-}
+use super::util::list_fds;
 /// descriptors in the ledger that lack FD_CLOEXEC right now
 fn not_cloexec() -> Vec<(i32, u8, u8)> {
     let gl = sim::g();
@@ -69,7 +61,10 @@ fn keep(st: &mut St, m: Msg, r: &mut Rng) {
     }
 }
 
-fn one_op(st: &mut St, r: &mut Rng, log: &mut Vec<String>, big_tx: &IpcSender<Msg>) {
+/// a message whose data part spans several packets, optionally with an attachment-carrying value
+pub type BigMsg = (Vec<u8>, Option<Msg>);
+
+fn one_op(st: &mut St, r: &mut Rng, log: &mut Vec<String>, big_tx: &IpcSender<BigMsg>) {
     let op = r.below(100);
     if op < 8 {
         match ipc::channel::<Msg>() {
@@ -171,11 +166,30 @@ fn one_op(st: &mut St, r: &mut Rng, log: &mut Vec<String>, big_tx: &IpcSender<Ms
         let id = st.next_id;
         st.next_id += 1;
         let att = if !st.senders.is_empty() && r.chance(1, 2) { Some(st.senders.remove(r.below(st.senders.len() as u64) as usize)) } else { None };
+        let len = *r.pick(&[250_000usize, 300_000, 700_000]);
+        if r.chance(1, 3) {
+            // the same to a receiver that is already gone: the send fails, and everything it had
+            // set up for the transfer (dedicated channel, attachment copies) must be released
+            sim::suspend_fd_faults(true);
+            let ch = ipc::channel::<BigMsg>();
+            sim::suspend_fd_faults(false);
+            if let Ok((t, rx)) = ch {
+                drop(rx);
+                let inner = match att {
+                    Some((d, tx)) => Some(Msg::Tx(id, d, tx)),
+                    None if r.chance(1, 2) => Some(Msg::Region(id, IpcSharedMemory::from_byte(3, 30_000))),
+                    None => None,
+                };
+                let res = t.send((vec![9u8; len], inner));
+                log.push(format!("big send #{} to a closed receiver -> {}", id, res.is_ok()));
+            }
+            return;
+        }
         let res = match att {
-            Some((d, t)) => big_tx.send(Msg::Tx(id, d, t)).and_then(|_| big_tx.send(Msg::Region(id, IpcSharedMemory::from_byte(3, 300_000)))),
-            None => big_tx.send(Msg::Region(id, IpcSharedMemory::from_byte(3, 250_000))),
+            Some((d, t)) => big_tx.send((vec![9u8; len], Some(Msg::Tx(id, d, t)))).and_then(|_| big_tx.send((vec![], Some(Msg::Region(id, IpcSharedMemory::from_byte(3, 300_000)))))),
+            None => big_tx.send((vec![9u8; len], Some(Msg::Region(id, IpcSharedMemory::from_byte(3, 250_000))))),
         };
-        log.push(format!("big send #{} -> {}", id, res.is_ok()));
+        log.push(format!("big send #{} ({} bytes) -> {}", id, len, res.is_ok()));
     } else if op < 68 {
         if st.receivers.is_empty() {
             return;
@@ -376,7 +390,7 @@ impl Scenario for C11S {
         }
     }
     fn rule(&self) -> &'static str {
-        "case = seeded sequence of <=400 public-API operations (create, clone, drop, send plain / embedded sender / embedded receiver / region, multi-packet sends with attachments to a drained channel, try_recv / try_recv_timeout / recv, receiver-set add / select with messages decoded or dropped undecoded, one-shot server new / connect+accept / drop unused, connect to a non-existent name, sends to closed receivers, shared memory from_bytes / from_byte / clone / drop incl. zero length, router new / add_route / shutdown / drop), repeated for 1..4 rounds inside one process, each round ending with every handle dropped in seeded order; EMFILE injected into socketpair / socket / accept / epoll_create1; the program closes stdin and spawns an unrelated child at seeded points; non-trivial = >=30 operations executed; distinct = distinct (sequence, fault list)"
+        "case = seeded sequence of <=400 public-API operations (create, clone, drop, send plain / embedded sender / embedded receiver / region, multi-packet sends (250..700 kB data part) with attachments to a drained channel and to receivers that are already gone, try_recv / try_recv_timeout / recv, receiver-set add / select with messages decoded or dropped undecoded, one-shot server new / connect+accept / drop unused, connect to a non-existent name, sends to closed receivers, shared memory from_bytes / from_byte / clone / drop incl. zero length, router new / add_route / shutdown / drop), repeated for 1..4 rounds inside one process, each round ending with every handle dropped in seeded order; EMFILE injected into socketpair / socket / accept / epoll_create1; the program closes stdin and spawns an unrelated child at seeded points; non-trivial = >=30 operations executed; distinct = distinct (sequence, fault list)"
     }
     fn gen(&self, seed: u64, idx: u64, tier: Tier, _variant: &str) -> Value {
         let mut r = Rng::stream(seed, idx.wrapping_mul(2654435761).wrapping_add(0xC11));
@@ -428,7 +442,7 @@ impl Scenario for C11S {
         'rounds: for round in 0..rounds {
             let mut st = St { senders: vec![], receivers: vec![], queued: BTreeMap::new(), set: None, members: BTreeMap::new(), servers: vec![], regions: vec![], routers: vec![], next_c: 0, next_id: 1, victims: 0 };
             let mut log: Vec<String> = vec![];
-            let (big_tx, big_rx) = match ipc::channel::<Msg>() {
+            let (big_tx, big_rx) = match ipc::channel::<BigMsg>() {
                 Ok(x) => x,
                 Err(_) => continue,
             };
